@@ -28,12 +28,14 @@ VARIANTS = ["repaired"]
 
 
 def route(case):
-    return "dhcp" if case.startswith("res ") else "allocator"
+    return "dhcp" if case.startswith(("res ", "resn ")) else "allocator"
 
 
 def kind(head):
-    """case kind without the x prefix (x = run in a child process with a watchdog: may not terminate)"""
-    return head[0][1:] if head[0][0] == "x" else head[0]
+    """case kind without the x prefix (x = run in a child process with a watchdog: may not terminate); resn = res
+    without a registry"""
+    k = head[0][1:] if head[0][0] == "x" else head[0]
+    return "res" if k == "resn" else k
 
 MODEL_NEEDS_IMPL = True
 RULE = ("pool: v4/v6 ranges of 1-40 addresses at carry boundaries (octet, 2^32 near-top, 64-bit word), 0-5 "
@@ -594,6 +596,10 @@ def gen_cases(rng, tier, budget):
         cases.append(gen_geometry(rng))
     for _ in range(n * 5 // 100):
         cases.append(gen_reentry(rng))
+    for _ in range(n * 2 // 100):
+        # the same Resolve / registry ops with no registry at all (nil global registry, nil receivers)
+        c = gen_registry(rng, resolve=True, maxops=25) if rng.random() < 0.6 else gen_reentry(rng)
+        cases.append("resn" + c[3:])
     # bounded-exhaustive block
     lo, hi, ex, alpha = exhaustive_small()
     L = 2 if tier == "quick" else 4
@@ -908,6 +914,8 @@ def monitor(case, impl):
                     return "a PD pool with prefix length %s delegated %s to %d sessions" % (head[3], got[0][1:], len(got))
                 return None
             return monitor_pd(head, ops, outs)
+        if head[0] == "resn":
+            return None          # no registry: nothing is tracked, nothing to hold against the answers
         if kind(head) == "res":
             v = monitor_res(head, ops, outs[:len(ops)])
             if v:
@@ -978,7 +986,7 @@ def shrink(case):
 
 
 def distribution(cases, impl):
-    d = {"pool": 0, "pd": 0, "reg": 0, "res": 0, "xpool": 0, "xpd": 0, "xreg": 0, "hang": 0, "override_answers": 0,
+    d = {"pool": 0, "pd": 0, "reg": 0, "res": 0, "resn": 0, "xpool": 0, "xpd": 0, "xreg": 0, "hang": 0, "override_answers": 0,
          "override_cross_vrf_answers": 0, "pd_overlap_refused": 0, "ops": 0, "alloc_ok": 0, "exhausted": 0, "conflict": 0,
          "contains_true": 0, "nilalloc": 0, "max_ops": 0}
     opk = {}
